@@ -55,7 +55,16 @@ def dispatch(client_mod, c2, cl, key):
     cl.silent = True
     cl.writer = None
     cl.sleeptime, cl.jitter = 0, 0
-    cl.send_callback = lambda *a, **k: None
+    def send_callback(callback_id, data=b"", *rest):
+        # what the real send_callback does before it talks to the network: the id must be a callback, the data bytes
+        c2.BeaconCallback(callback_id)
+        bytes(data)
+        if not isinstance(callback_id, (int, c2.BeaconCallback)) or rest:
+            raise TypeError("send_callback() arguments")
+        if int(callback_id) not in {int(m.value) for m in c2.BeaconCallback}:
+            raise ValueError(f"{callback_id} is not a valid BeaconCallback")
+
+    cl.send_callback = send_callback
     old = _t.sleep
     client_mod.time.sleep = lambda s: None
     try:
@@ -77,13 +86,15 @@ def run(ctx):
     ctx.assumptions += ["requested ids outside [0, 2^31) may be rejected or normalised, as long as the presented id is even and in range",
                         "the server key is 1024 or 2048 bit"]
 
-    def cfg(original, maxreg):
+    def cfg(original, maxreg, abort=False):
         return f"""CONSTANTS
  Cmds = {{4, 5}}
  Hids = {{1, 2}}
  MaxReg = {maxreg}
  MethodSets <- MethodSetsDef
  ORIGINAL = {'TRUE' if original else 'FALSE'}
+ Faulty = {{2, 104}}
+ ABORT = {'TRUE' if abort else 'FALSE'}
 SPECIFICATION Spec
 INVARIANT ExactlyOnce
 INVARIANT NoDuplicates
@@ -97,6 +108,9 @@ CHECK_DEADLOCK FALSE
     if r0.ok:
         raise core.MachineryError("Client.tla accepts the in-place extension of the registry (vacuous?)")
     ctx.notes["original_algorithm_rejected_by"] = r0.violation
+    r1 = ctx.tlc("Client", cfg(False, 2, abort=True), name="model-abort", workers=2, coverage=False)
+    if r1.ok:
+        raise core.MachineryError("Client.tla accepts a loop that a misbehaving handler can end (vacuous?)")
 
     # spec -> code: the dumped state graph; from every registry state every dispatch, and every pair / triple of dispatches
     dot = ctx.outdir / "graph.dot"
@@ -124,9 +138,21 @@ CHECK_DEADLOCK FALSE
             calls = []
             cl = make_client(client_mod, methods, calls)
             for i, rg_ in enumerate(regs):
-                def mkh(h):
+                def mkh(h, i=i):
                     def fn(task):
                         calls.append(h)
+                        # what a handler does besides being called must not matter: nothing, a valid response, an exception,
+                        # a response with an unknown callback id, a malformed response
+                        kind = (h + i) % 5
+                        if kind == 1:
+                            raise RuntimeError("handler failed")
+                        if kind == 2:
+                            return (0, b"output")
+                        if kind == 3:
+                            return (0x7777, b"hello")
+                        if kind == 4:
+                            return (1, b"x", b"y", b"z")
+                        return None
 
                     return fn
 
@@ -175,6 +201,42 @@ CHECK_DEADLOCK FALSE
         o = core.guarded(lambda: cl.run(cfgs[kb], dry_run=True, **kw), seconds=30)
         return cl, o
 
+    def wire_rand(cl_):
+        """the random bytes as they leave the client: field aes_rand of the serialized metadata"""
+        try:
+            return L(bytes(c2.BeaconMetadata(cl_.metadata.dumps()).aes_rand))
+        except Exception as ex:  # noqa: BLE001
+            return [256, len(str(ex)) % 255]
+
+    # the 128-bit draw the session keys are derived from, with leading / trailing zero bytes and the extremes
+    real_getrandbits = random.getrandbits
+    for draw in [0, 1, 255, 2**120 - 1, 2**120, 2**112 + 7, 2**127, 2**128 - 1, 0x00FF00 << 100, rng.getrandbits(128) >> 9]:
+        random.getrandbits = lambda n, _d=draw: _d if n == 128 else real_getrandbits(n)
+        try:
+            cl, o = setup(128, beacon_id=4242, user="u", computer="c", process="p")
+        finally:
+            random.getrandbits = real_getrandbits
+        ctx.evaluations += 1
+        if o[0] == "ok":
+            dg = hashlib.sha256(draw.to_bytes(16, "big")).digest()
+            ev.append({"op": "keys", "same": bytes(cl.aes_rand) == draw.to_bytes(16, "big"), "aes": L(cl.aes_key), "hmac": L(cl.hmac_key), "digest": L(dg), "md_rand": wire_rand(cl),
+                       "aes_rand": L(cl.aes_rand), "md_bid": limbs(int(cl.metadata.bid)), "id": limbs(cl.beacon_id)})
+        else:
+            ev.append({"op": "id", "req": limbs(4242), "inrange": True, "r": str(o[1]), "id": [0, 0]})
+        ctx.count_distinct(("draw", draw))
+    # one client object used for two sessions: the keys in use for the second id (the decoder's keys) are those of a fresh client
+    for ida, idb in [(2, 4), (4, 2), (1234, 1234), (100, 2**31 - 2)]:
+        cla = client_mod.HttpBeaconClient()
+        oa = core.guarded(lambda: cla.run(cfgs[128], dry_run=True, beacon_id=ida, user="u", computer="c", process="p"), seconds=30)
+        ob = core.guarded(lambda: cla.run(cfgs[128], dry_run=True, beacon_id=idb, user="u", computer="c", process="p"), seconds=30)
+        fresh, of = setup(128, beacon_id=idb, user="u", computer="c", process="p")
+        ctx.evaluations += 1
+        if oa[0] == "ok" and ob[0] == "ok" and of[0] == "ok":
+            dg = hashlib.sha256(cla.aes_rand).digest()
+            inuse = (bytes(cla.c2http.beacon_keys.aes_key or b""), bytes(cla.c2http.beacon_keys.hmac_key or b""))
+            ev.append({"op": "keys", "same": inuse == (bytes(fresh.aes_key), bytes(fresh.hmac_key)) and (cla.aes_rand, cla.aes_key, cla.hmac_key) == (fresh.aes_rand, fresh.aes_key, fresh.hmac_key),
+                       "aes": L(inuse[0]), "hmac": L(inuse[1]), "digest": L(dg), "md_rand": wire_rand(cla), "aes_rand": L(cla.aes_rand), "md_bid": limbs(int(cla.metadata.bid)), "id": limbs(cla.beacon_id)})
+        ctx.count_distinct(("reuse", ida, idb))
     ids = [0, 1, 2, 3, 9, 2**31 - 1, 2**31 - 2, 2**31, 2**32 - 1, 2**32, 2**32 + 5, -1, -2, 123456789] + [rng.randrange(0, 2**31) for _ in range(10 if q else 200)]
     for rid in ids:
         cl, o = setup(128, beacon_id=rid, user="u", computer="c", process="p")
@@ -187,7 +249,7 @@ CHECK_DEADLOCK FALSE
             cl2, o2 = setup(128, beacon_id=rid, user="other", computer="x", process="y")
             dg = hashlib.sha256(cl.aes_rand).digest()
             ev.append({"op": "keys", "same": o2[0] == "ok" and (cl2.aes_rand, cl2.aes_key, cl2.hmac_key) == (cl.aes_rand, cl.aes_key, cl.hmac_key),
-                       "aes": L(cl.aes_key), "hmac": L(cl.hmac_key), "digest": L(dg), "md_rand": L(cl.metadata.aes_rand), "aes_rand": L(cl.aes_rand),
+                       "aes": L(cl.aes_key), "hmac": L(cl.hmac_key), "digest": L(dg), "md_rand": wire_rand(cl), "aes_rand": L(cl.aes_rand),
                        "md_bid": limbs(int(cl.metadata.bid)), "id": e["id"]})
         ev.append(e)
         ctx.count_distinct(("id", rid))
@@ -198,7 +260,7 @@ CHECK_DEADLOCK FALSE
             if o3[0] == "ok" and cl3.beacon_id == cl.beacon_id:
                 dg = hashlib.sha256(cl3.aes_rand).digest()
                 ev.append({"op": "keys", "same": (cl3.aes_rand, cl3.aes_key, cl3.hmac_key) == (cl.aes_rand, cl.aes_key, cl.hmac_key),
-                           "aes": L(cl3.aes_key), "hmac": L(cl3.hmac_key), "digest": L(dg), "md_rand": L(cl3.metadata.aes_rand), "aes_rand": L(cl3.aes_rand),
+                           "aes": L(cl3.aes_key), "hmac": L(cl3.hmac_key), "digest": L(dg), "md_rand": wire_rand(cl3), "aes_rand": L(cl3.aes_rand),
                            "md_bid": limbs(int(cl3.metadata.bid)), "id": limbs(cl3.beacon_id)})
     # names: ASCII, long, non-ASCII; the metadata built from them must be encryptable for the server key
     names = [("u", "c", "p"), ("a" * 60, "b" * 60, "c" * 60), ("ü" * 30, "PC", "x.exe"), ("用户", "计算机-PC", "进程.exe"), ("é" * 17, "ñ" * 17, "ß" * 17),
